@@ -52,7 +52,7 @@ func (s *Aggregate) RemoteTimeoutRule(currentView, timeoutView hotstuff.View, ti
 	if err != nil {
 		return hotstuff.SyncInfo{}, fmt.Errorf("failed to create timeout certificate: %w", err)
 	}
-	aggQC, err := s.auth.CreateAggregateQC(currentView, timeouts)
+	aggQC, err := s.auth.CreateAggregateQC(timeoutView, timeouts)
 	if err != nil {
 		return hotstuff.SyncInfo{}, fmt.Errorf("failed to create aggregate quorum certificate: %w", err)
 	}
